@@ -136,7 +136,7 @@ fn structurally_valid(b: &[u8; 20]) -> bool {
     b[0] == 0x45 && b[1] & 0b11 == 0 && be16(b[2], b[3]) >= 20 && b[6] & 0x80 == 0
 }
 
-//# id=checksum.emitted_header_verifies props=C18 kind=complete features=compute_checksum pair=
+//# id=checksum.emitted_header_verifies props=C18 kind=complete features=compute_checksum tier=thorough pair=
 // every emitted IPv4 header verifies under the RFC 1071 rule (sum of all ten words is all ones)
 #[cfg(feature = "compute_checksum")]
 #[cfg_attr(kani, kani::proof)]
@@ -179,7 +179,7 @@ fn h_ck_ipv4_emit_verifies() {
     }
 }
 
-//# id=checksum.decoder_accepts_conforming props=C18 kind=complete features=compute_checksum pair=
+//# id=checksum.decoder_accepts_conforming props=C18 kind=complete features=compute_checksum tier=thorough pair=
 // the decoder accepts every structurally valid header whose checksum verifies under RFC 1071
 // (checksum field other than 0x0000: see the known-finding harness below for that class)
 #[cfg(feature = "compute_checksum")]
@@ -208,7 +208,7 @@ fn h_ck_ipv4_accepts_conforming_zero_field() {
     assert!(Ipv4Header::from_bytes(b.into_iter()).is_ok());
 }
 
-//# id=checksum.decoder_rejects_corruption props=C18 kind=complete features=compute_checksum pair=
+//# id=checksum.decoder_rejects_corruption props=C18 kind=complete features=compute_checksum tier=thorough pair=
 // a header that does not verify under RFC 1071 is never accepted
 #[cfg(feature = "compute_checksum")]
 #[cfg_attr(kani, kani::proof)]
